@@ -78,7 +78,11 @@ CLAIMED = {
              "construction is refused, nothing is decoded or returned when the device reports an error; get_opcode's suffix search finds the "
              "9Eh/A3h entries with their service actions in every set; documented keyword names are constructor parameters. Tied by a "
              "2550-call correspondence with a recording device (5 command sets, optional-argument subsets, zero/random fill, device error), "
-             "which also checks buffer identity, T10 opcode and decode-after-execute on the implementation.",
+             "which also checks buffer identity, T10 opcode and decode-after-execute on the implementation. Everything else in class SCSI "
+             "is REGENERATED too and must have exactly the known shape (execute = hand the command to the device once and re-raise; "
+             "__enter__/__exit__; blocksize property; no other member, decorator or class-level attribute). Histories of calls on ONE facade "
+             "over the real SCSIDevice / ISCSIDevice (stub bindings, scripted answers incl. hidden re-executions) are judged on every run: "
+             "exactly one command per call, T10 opcode whatever was called before, same behaviour as on a brand-new facade.",
         ref="DESIGN.md §4 C13",
         note="The event-trace semantics of the action language is hand-written (Model/Facade.v) and tied by correspondence; buffer identity "
              "and decode-after-execute are observed on the implementation, not modelled.",
@@ -211,13 +215,20 @@ CLAIMED = {
     "C10": dict(
         text="Machine-checked proof (Coq 8.16.1) of the codec laws for every buffer size, every contiguous mask at any "
              "alignment, every offset, every in-range value, every field order and arbitrary prior contents "
-             "(13 theorems in coq/Properties/C10.v, closed under the global context), about a hand-written Gallina model of "
-             "pyscsi/utils/converter.py that is tied to the code on every run by a correspondence run (vm_compute inside "
-             "Coq vs. the implementation on >= 6000 generated cases incl. malformed ones).",
-        ref="DESIGN.md §3.2, §4 C10",
-        note="Trusted: Coq kernel + vm_compute; the correspondence harness (generator quality bounds it); CPython int/"
-             "bytearray/slice semantics as transcribed. No axioms (Print Assumptions: closed).",
-        technique="Coq proof by bit-extensionality over a hand model + vm_compute correspondence with the implementation"),
+             "(13 theorems in coq/Properties/C10.v, closed under the global context) about a Gallina model of "
+             "pyscsi/utils/converter.py; and that model IS what the source computes: the four functions of converter.py are REGENERATED "
+             "on every run into programs of a deep embedding of their Python fragment (Gen/PyConv.v, semantics Model/Py.v) and proved, "
+             "for every value / width / byte string / well-formed layout / dictionary, to return exactly what the model returns "
+             "(C10_py_int_to_ba, C10_py_ba_to_int, C10_py_decode_bits, C10_py_encode_dict; all 143 regenerated tables are in the theorems' "
+             "scope, C10_py_every_table_in_scope). The Python semantics and the hand model are also run against the real functions on "
+             ">= 6600 generated cases incl. malformed ones, and the laws themselves are re-checked on the implementation on every run.",
+        ref="DESIGN.md §0.1b, §3.2, §4 C10",
+        note="Trusted: Coq kernel + vm_compute; the translator tools/translate_py.py (fail-closed; four documented rewrites; decorators are "
+             "unknown) and the hand-written semantics of the small Python (Model/Py.v), both tied to CPython by the correspondence runs "
+             "(generator quality bounds them); CPython int/bytearray/slice semantics as transcribed. The decode / encode theorems are stated "
+             "for tables whose masks are non-zero and at most 4096 bits wide with b/w/dw blobs and distinct names, dictionaries with "
+             "distinct keys, byte buffers; outside that the correspondence run decides. No axioms (Print Assumptions: closed).",
+        technique="Coq proof by bit-extensionality over a codec model + Coq refinement proof from the regenerated source (deep embedding) to that model + vm_compute correspondence"),
     "C14": dict(
         text="Complete enumeration inside the Coq kernel (vm_compute, lifted to quantified statements by forallb_forall) of every "
              "entry of the five opcode tables, their service-action tables and the status table REGENERATED from "
